@@ -111,10 +111,20 @@ func (h *harness) runDriver() {
 type obsTarget struct {
 	count int
 	last  map[string]string // what the getters answered inside the most recent notification
+	// bookkeeping of the history stream
+	id         int
+	name       string
+	when       string // registered: before-construction | after-construction | between-reloads
+	registered bool
+	prev       int
+	light      bool // count only
 }
 
 func (o *obsTarget) ApplyConfig(c config.Config) {
 	o.count++
+	if o.light {
+		return
+	}
 	o.last = map[string]string{}
 	for _, k := range c.GetKeys() {
 		o.last[k] = c.GetValue(k)
@@ -122,10 +132,11 @@ func (o *obsTarget) ApplyConfig(c config.Config) {
 }
 
 type cfgEnv struct {
-	dir  string
-	path string
-	c    *conffile.FileConfig
-	obs  *obsTarget
+	dir      string
+	path     string
+	c        *conffile.FileConfig
+	obs      *obsTarget
+	observer *config.ConfigObserver
 }
 
 var dirSeq int
@@ -140,8 +151,12 @@ func (h *harness) newDir() (string, string) {
 }
 
 func newCfg(dir string, opts ...conffile.FileConfigOption) *cfgEnv {
-	e := &cfgEnv{dir: dir, path: filepath.Join(dir, "whatap.conf"), obs: &obsTarget{}}
-	o := config.NewConfigObserver()
+	return newCfgObs(dir, config.NewConfigObserver(), opts...)
+}
+
+// newCfgObs: o may already hold registrations; the reference target "verif" is added to it.
+func newCfgObs(dir string, o *config.ConfigObserver, opts ...conffile.FileConfigOption) *cfgEnv {
+	e := &cfgEnv{dir: dir, path: filepath.Join(dir, "whatap.conf"), obs: &obsTarget{name: "verif", when: "before-construction", registered: true}, observer: o}
 	o.Add("verif", e.obs)
 	all := append([]conffile.FileConfigOption{conffile.WithHomePath(dir), conffile.WithConfigObserver(o)}, opts...)
 	e.c = conffile.NewForVerif(all...)
@@ -885,189 +900,6 @@ func matchWrite(implText, got string) bool {
 }
 
 // ---------------------------------------------------------------- stream: histories
-
-func (h *harness) streamHistory(n, maxSteps int) {
-	base := int64(1_700_000_000)
-	for i := 0; i < n; i++ {
-		grp := h.newGroup()
-		dir, path := h.newDir()
-		var hist []map[string]interface{}
-		logOp := func(op string, kv ...interface{}) {
-			m := map[string]interface{}{"op": op}
-			for j := 0; j+1 < len(kv); j += 2 {
-				m[kv[j].(string)] = kv[j+1]
-			}
-			hist = append(hist, m)
-		}
-		snapshot := func() []map[string]interface{} { return append([]map[string]interface{}{}, hist...) }
-		h.add(check{line: "N", want: "ok", group: grp})
-		exists := false
-		var curText string
-		var curNs, curSize int64
-		sec := base + int64(h.rng.Intn(1000))*10
-		nsInSec := int64(0)
-		edit := func() {
-			var text string
-			for tries := 0; ; tries++ {
-				if !h.mustLoadFatal && h.rng.Chance(4) {
-					text = genText(h.rng, 3, 10) + h.rng.PickStr(malformedTexts[:6])
-				} else {
-					text = genText(h.rng, 6, 15)
-				}
-				if strings.Contains(text, "${") {
-					continue
-				}
-				if _, _, err := libRead(text); err != nil && h.mustLoadFatal {
-					continue
-				}
-				if text != curText || tries > 5 {
-					break
-				}
-			}
-			writeFile(path, text)
-			natural := h.rng.Chance(25)
-			if natural {
-				h.rep.Count("history:edit-natural")
-			} else {
-				// controlled mtime: stay in the same second (60%), or move to a later second
-				if exists && h.rng.Chance(60) {
-					nsInSec += int64(1+h.rng.Intn(300)) * 1_000_000
-					if nsInSec >= 1_000_000_000 {
-						sec++
-						nsInSec = 0
-					}
-					h.rep.Count("history:edit-same-second")
-				} else {
-					sec += int64(1 + h.rng.Intn(3))
-					nsInSec = int64(h.rng.Intn(1000)) * 1_000_000
-					h.rep.Count("history:edit-new-second")
-				}
-				t := time.Unix(sec, nsInSec)
-				if err := os.Chtimes(path, t, t); err != nil {
-					vh.Die("chtimes: %v", err)
-				}
-			}
-			curNs, curSize = statNs(path)
-			curText = text
-			exists = true
-			logOp("edit", "text", text, "mtime_ns", curNs, "natural", natural)
-			h.add(check{line: fmt.Sprintf("E %d %s", curNs, encStr(text)), want: "ok", group: grp})
-		}
-		if h.rng.Chance(85) {
-			edit()
-		}
-		ce := newCfg(dir)
-		// the reload inside the constructor
-		var prevVer [2]int64 = [2]int64{-1, -1}
-		prevCount := 0
-		dead := false
-		afterReload := func(first bool) {
-			logOp("reload", "notified", ce.obs.count)
-			h.rep.Count("history:reload")
-			hs := snapshot()
-			cnt := ce.obs.count
-			if dead {
-				return
-			}
-			if exists {
-				ver := [2]int64{curNs, curSize}
-				m, _, err := libRead(curText)
-				if err == nil && ver != prevVer {
-					// the property, directly: the file changed since the last reload, so every key=value of it
-					// is visible now and the observers were told
-					key := "reload:edit-not-loaded"
-					if prevVer[0] >= 0 && prevVer[0]/1e9 == curNs/1e9 {
-						key = "reload:same-second-edit"
-					}
-					for k, v := range m {
-						if got := ce.c.GetValue(k); got != strings.TrimSpace(v) {
-							h.rep.Fail("property", key,
-								fmt.Sprintf("after the reload key %q reads %q, the file says %q (mtime %d ns, previous version %d ns)", k, got, strings.TrimSpace(v), curNs, prevVer[0]),
-								map[string]interface{}{"history": hs})
-							dead = true
-							break
-						}
-					}
-					if !dead && cnt == prevCount+1 {
-						// "notified after each change": inside the notification the getters already answer from the new file
-						for k, v := range m {
-							if got := ce.obs.last[k]; got != strings.TrimSpace(v) {
-								h.rep.Fail("property", "observer:notified-before-merge",
-									fmt.Sprintf("inside the observer notification key %q read %q, the file says %q", k, got, strings.TrimSpace(v)),
-									map[string]interface{}{"history": hs})
-								dead = true
-								break
-							}
-						}
-					}
-					if !dead && cnt != prevCount+1 {
-						h.rep.Fail("property", key,
-							fmt.Sprintf("the file changed (mtime %d ns, previous version %d ns) but the observers were not notified by the reload (notifications so far: %d)", curNs, prevVer[0], cnt),
-							map[string]interface{}{"history": hs})
-						dead = true
-					}
-				}
-				prevVer = ver
-			}
-			prevCount = cnt
-			if dead {
-				return // the model describes the repaired behaviour; the rest of this history is not compared
-			}
-			h.add(check{line: "R", want: fmt.Sprint(cnt), canon: lastField, group: grp, onDiff: func(got string) {
-				h.rep.Fail("correspondence", "reload:decision", "reload decision / notification count differs from the model",
-					map[string]interface{}{"history": hs, "impl_notified": cnt, "model": got})
-			}})
-			// state snapshot: keys and values
-			keys := ce.c.GetKeys()
-			sort.Strings(keys)
-			h.add(check{line: "K", want: encList(keys), canon: canonSortedList, group: grp, onDiff: func(got string) {
-				h.rep.Fail("correspondence", "reload:keys", "key set after reload differs from the model",
-					map[string]interface{}{"history": hs, "impl": keys, "model": decList(got)})
-			}})
-			for _, k := range keys {
-				g := getterCall{kind: "v", key: k}
-				h.addGetter(ce, g, grp, func() interface{} { return hs })
-			}
-		}
-		afterReload(true)
-		steps := 2 + h.rng.Intn(maxSteps)
-		for s := 0; s < steps; s++ {
-			switch x := h.rng.Intn(100); {
-			case x < 40:
-				edit()
-			case x < 45 && exists:
-				os.Remove(path)
-				exists = false
-				logOp("delete")
-				h.rep.Count("history:delete")
-				h.add(check{line: "D", want: "ok", group: grp})
-			case x < 80:
-				ce.c.ReloadNowForVerif()
-				afterReload(false)
-			default:
-				keys := ce.c.GetKeys()
-				k := "absent_key"
-				if len(keys) > 0 && h.rng.Chance(80) {
-					sort.Strings(keys)
-					k = keys[h.rng.Intn(len(keys))]
-				}
-				g := genGetter(h.rng, k)
-				hs := snapshot()
-				if !dead {
-					h.addGetter(ce, g, grp, func() interface{} { return hs })
-				}
-			}
-		}
-		// the file has stopped changing: one more reload must make it visible
-		ce.c.ReloadNowForVerif()
-		afterReload(false)
-		h.rep.Case(fmt.Sprint(hist), len(hist) > 2)
-		if i < 2 {
-			h.rep.Sample(map[string]interface{}{"stream": "history", "ops": hist})
-		}
-		ce.c.Destroy()
-	}
-}
 
 // ---------------------------------------------------------------- main
 
